@@ -20,6 +20,8 @@ const CONTROLS: &[&str] = &[
 const CTL_TARGETS: &[&str] = &["tstr", "uint", "bstr", "int", "float", "any"];
 const CTL_ARGS: &[&str] = &[
   "1", "0", "-1", "\"x\"", "\"\"", "\"(\"", "\"x\nx = y\"", "h'01'", "[int]", "b", "18446744073709551615", "1.5", "\"%d\"", "[\"a\", tstr]", "&(x: 1)",
+  // byte-string and non-ASCII arguments, printf-style argument lists
+  "'a'", "'\u{e9}'", "\"\u{e9}\u{e9}\"", "[\"%3s\", \"\u{e9}\u{e9}\"]", "[\"%5d\", 42]", "[\"%-4x\", 255]", "[\"%08.3f\", 1.5]", "[\"%c\", 233]", "[\"%s\"]",
 ];
 const PRELUDE: &[&str] = &[
   "any", "uint", "nint", "int", "bstr", "bytes", "tstr", "text", "tdate", "time", "number", "biguint", "bignint", "bigint", "integer", "unsigned", "decfrac",
@@ -33,6 +35,8 @@ const DOCS: &[(&str, &str)] = &[
   ("1e400", "fb7ff0000000000000"), ("", "f97e00"), ("[]", "80"), ("[1]", "8101"), ("{}", "a0"), ("null", "f6"), ("true", "f5"), ("", "40"), ("", "4101"),
   ("", "c11b7fffffffffffffff"), ("", "c1fb7fefffffffffffff"), ("", "c060"), ("", "c24101"), ("", "c48200c24101"), ("", "d82040"), ("", "f7"), ("", "f8ff"),
   ("\"2024-13-45T99:00:00Z\"", "74323032342d31332d34355439393a30303a30305a"), ("\"%zz\"", "63257a7a"), ("\"AA==\"", "6441413d3d"),
+  // non-ASCII text (byte length != character count)
+  ("\"\u{e9}\"", "62c3a9"), ("\"a\u{e9}\u{65e5}\"", "6661c3a9e697a5"), ("\"\u{1F600}\"", "64f09f9880"),
 ];
 
 pub fn descriptors(quick: bool) -> Vec<String> {
